@@ -261,6 +261,9 @@ def run(tier):
                       [dict(file='transform.py', fn='Softmax._forward/_backward', trusted=[], nonterminating=[], cutloops=0, unrolled=0, terminating=0)]
         r.extra['paths_explored'] = npaths
         r.extra['junction_paths_not_proved'] = list(JUNCTION)
+    except (engp.Unsupported, engp.PathLimit) as e:
+        # the code under analysis uses a construct the symbolic executor does not support (e.g. after a change of the code): undecided, not a crash
+        r.undecided.append('Engine P cannot execute the current code symbolically: %s' % (str(e)[:300],))
     except Exception:
         r.broken.append('C01 driver crashed: ' + traceback.format_exc()[-2500:])
     r.assumptions += ['floats are mathematical reals plus NaN / inf flags (no rounding); the 1e-6 accuracy statement is only sampled in floats (bounded clause)',
